@@ -37,7 +37,7 @@ structure Tok where
   ok : Bool
 deriving Repr, DecidableEq
 
-def P : Params Tok := ⟨fun t => t.ok, fun _ => ⟨0, true⟩⟩
+def P : Params Tok := ⟨fun t => t.ok, fun _ => ⟨0, true⟩, fun _ _ _ => ⟨0, true⟩⟩
 
 def parseTok (s : String) : Option Tok :=
   if s.endsWith "!" then do some ⟨← natOf (s.dropEnd 1).toString, false⟩
@@ -146,35 +146,28 @@ def parseObjB (s : String) : Option (Obj BV) :=
     some ⟨← natOf off, ← natOf id, ← natOf gen, .int t.m, ms.map fun m => .int m.m⟩
   | _ => none
 
-inductive BOp where
-  | op (o : Op BV)
-  | save
+abbrev BOp := SaveBytes.OpB (List UInt8)
 
 def parseBOp (s : String) : Option BOp :=
   match s.splitOn "=" with
-  | ["c", v] => do some (.op (.create (← DrvObj.valOf v)))
-  | ["u", id, v] => do some (.op (.update (← natOf id) (← DrvObj.valOf v)))
-  | ["p"] => some (.op .promise)
-  | ["f", id, v] => do some (.op (.fulfil (← natOf id) (← DrvObj.valOf v)))
+  | ["c", v] => do some (.create (← DrvObj.valOf v))
+  | ["u", id, v] => do some (.update (← natOf id) (← DrvObj.valOf v))
+  | ["p"] => some .promise
+  | ["f", id, v] => do some (.fulfil (← natOf id) (← DrvObj.valOf v))
   | ["s"] => some .save
   | _ => none
 
+/-- the history through `SaveBytes.stepB`; a save answers with the bytes it appended -/
 def runB (b : SaveBytes.BDoc (List UInt8)) : List BOp → List String → List String
   | [], acc => acc.reverse
-  | .op o :: rest, acc =>
-    -- the layout is irrelevant for anything but `save`
-    let (d', r) := step (SaveBytes.params id) b.doc o
+  | o :: rest, acc =>
+    let (b', r) := SaveBytes.stepB id b o
     let a := match r with
       | .ref i g => s!"R{i}.{g}"
       | .failed o => o.tag
+      | .saved _ => "ok/" ++ hexOfBytes (b'.bytes.drop b.bytes.length)
       | _ => "?"
-    runB { b with doc := d' } rest (a :: acc)
-  | .save :: rest, acc =>
-    let (b', r) := SaveBytes.saveB id b
-    match r with
-    | .ok _ => runB b' rest (("ok/" ++ hexOfBytes (b'.bytes.drop b.bytes.length)) :: acc)
-    | o => runB b' rest (o.tag :: acc)
-
+    runB b' rest (a :: acc)
 
 def handle (args : List String) : String :=
   match args with
